@@ -2161,6 +2161,7 @@ static srtp_err_status_t srtp_protect_aead(srtp_ctx_t *ctx,
                 return status; /* we've been asked to reuse an index */
         }
         srtp_rdbx_add_index(&stream->rtp_rdbx, delta);
+        stream->pending_roc = 0;
     }
 
     debug_print(mod_srtp, "estimated packet index: %016" PRIx64, est);
@@ -2456,6 +2457,7 @@ static srtp_err_status_t srtp_unprotect_aead(srtp_ctx_t *ctx,
         srtp_rdbx_add_index(&stream->rtp_rdbx, 0);
     } else {
         srtp_rdbx_add_index(&stream->rtp_rdbx, delta);
+        stream->pending_roc = 0;
     }
 
     *rtp_len = enc_start + enc_octet_len;
@@ -2657,6 +2659,7 @@ srtp_err_status_t srtp_protect(srtp_t ctx,
                 return status; /* we've been asked to reuse an index */
         }
         srtp_rdbx_add_index(&stream->rtp_rdbx, delta);
+        stream->pending_roc = 0;
     }
 
     debug_print(mod_srtp, "estimated packet index: %016" PRIx64, est);
@@ -3137,6 +3140,7 @@ srtp_err_status_t srtp_unprotect(srtp_t ctx,
         srtp_rdbx_add_index(&stream->rtp_rdbx, 0);
     } else {
         srtp_rdbx_add_index(&stream->rtp_rdbx, delta);
+        stream->pending_roc = 0;
     }
 
     *rtp_len = enc_start + enc_octet_len;
